@@ -1,6 +1,8 @@
 // C12 correspondence runner: drives the REAL comm/p2p.Libp2pCommunication (Subscribe / UnSubscribe /
 // GetSubscribers and the fan-out of ProcessMessagesFromStream over an inbound stream) on operation
 // lists over several sessions, and the real comm.SubscriptionID.Unwrap on built and arbitrary ids.
+// Fan cases (fan.go): several messages in flight on one or more streams while the subscribers read
+// late / in an arbitrary order; per channel the multiset of messages received is judged.
 package main
 
 import (
@@ -34,13 +36,19 @@ type ST struct {
 }
 
 type Case struct {
-	Kind  string `json:"kind"` // ops | unw | raw
+	Kind  string `json:"kind"` // ops | fan | unw | raw
 	Ops   []Op   `json:"ops,omitempty"`
 	Extra []ST   `json:"extra,omitempty"` // further (session,type) pairs whose subscriber lists are watched
 	S     string `json:"s,omitempty"`     // unw
 	T     uint8  `json:"t,omitempty"`
 	U     uint32 `json:"u,omitempty"`
 	ID    string `json:"id,omitempty"` // raw
+	// fan (see fan.go): Ops (sub / unsub only) build the table, then the streams are decoded
+	Streams []StreamIn `json:"streams,omitempty"`
+	Mode    string     `json:"mode,omitempty"`  // late | mixed | eager: who goes first, decoder or receivers
+	Sched   []int      `json:"sched,omitempty"` // the choices among the enabled feed / receive actions
+	Cap     int        `json:"cap,omitempty"`   // capacity of the subscriber channels (0 = unbuffered)
+	Procs   int        `json:"procs,omitempty"` // GOMAXPROCS during the case (0 = unchanged)
 }
 
 type OpObs struct {
@@ -62,6 +70,11 @@ type Obs struct {
 	Repeated bool    `json:"repeated_id,omitempty"` // Subscribe returned an id twice in all 3 attempts
 	Res      *Res    `json:"res,omitempty"`
 	Err      string  `json:"err,omitempty"`
+	// fan
+	Chans []int    `json:"chans,omitempty"`
+	Recv  [][]RMsg `json:"recv,omitempty"`
+	Lost  int      `json:"lost,omitempty"`  // scheduled receipts that never arrived (deadline)
+	Stuck int      `json:"stuck,omitempty"` // decoder / delivery goroutines that did not finish (deadline)
 }
 
 const badOffset = 1000000 // a receipt whose content is not the delivered message
@@ -190,13 +203,17 @@ func runOps(c Case) (Obs, bool) {
 
 func run(c Case) Obs {
 	switch c.Kind {
-	case "ops":
+	case "ops", "fan":
 		// uint32(time.Now().UnixNano()) is assumed fresh; an accidental repetition (2^-32 per pair) is
 		// retried, a systematic one is reported through the judge (a subscriber is displaced).
 		var o Obs
 		for attempt := 0; attempt < 3; attempt++ {
 			var rep bool
-			o, rep = runOps(c)
+			if c.Kind == "fan" {
+				o, rep = runFan(c)
+			} else {
+				o, rep = runOps(c)
+			}
 			if !rep {
 				return o
 			}
@@ -291,9 +308,9 @@ func genOps(r *vgen.Rng, maxOps int) Case {
 
 func gen(r *vgen.Rng, tier string) []Case {
 	var out []Case
-	nlists, maxOps, nraw := 260, 40, 150
+	nlists, maxOps, nraw, nfan := 260, 40, 150, 320
 	if tier == "thorough" {
-		nlists, maxOps, nraw = 4000, 60, 3000
+		nlists, maxOps, nraw, nfan = 4000, 60, 3000, 6000
 	}
 	// Unwrap of built ids: every family member x boundary types x boundary unique components
 	for _, fam := range families {
@@ -323,6 +340,9 @@ func gen(r *vgen.Rng, tier string) []Case {
 		}
 		out = append(out, genOps(r, m))
 	}
+	for i := 0; i < nfan; i++ {
+		out = append(out, genFan(r))
+	}
 	return out
 }
 
@@ -345,6 +365,8 @@ func coq(c Case, o Obs) string {
 		return "Unw " + vgen.Str(c.S) + " " + vgen.N(uint64(c.T)) + " " + vgen.N(uint64(c.U)) + " " + resCoq(o)
 	case "raw":
 		return "Raw " + vgen.Str(c.ID) + " " + resCoq(o)
+	case "fan":
+		return fanCoq(c, o)
 	}
 	uni := vgen.ListOf(o.Universe, func(p ST) string { return vgen.Pair(vgen.Str(p.S), vgen.N(uint64(p.T))) })
 	ops := make([]string, len(c.Ops))
@@ -389,6 +411,9 @@ func main() {
 			if c.Kind == "raw" {
 				return "raw"
 			}
+			if c.Kind == "fan" {
+				return "fan-" + c.Mode
+			}
 			if hyphen(c) {
 				return c.Kind + "-hyphen"
 			}
@@ -400,6 +425,8 @@ func main() {
 				return true
 			case "raw":
 				return strings.Count(c.ID, "-") >= 2
+			case "fan":
+				return fanNonTrivial(c)
 			}
 			nsub, other := 0, 0
 			for _, op := range c.Ops {
@@ -411,6 +438,6 @@ func main() {
 			}
 			return nsub >= 2 && other >= 1
 		},
-		Rule: "Unwrap on ids built for every session-family member x boundary types x boundary unique components, Unwrap on random/malformed strings, and random operation lists (sub/unsub/deliver, 1..40 ops quick, 1..60 thorough) over 1..5 sessions of a family of mutually confusable ids (prefixes, trailing/leading/double hyphens, empty, hex digests, production-style message ids) and 1..3 declared message types; distinct = distinct input JSON; non-trivial = every built-id Unwrap, malformed ids with at least two separators, operation lists with at least two subscriptions and one cancellation or delivery",
+		Rule: "Unwrap on ids built for every session-family member x boundary types x boundary unique components, Unwrap on random/malformed strings, and random operation lists (sub/unsub/deliver, 1..40 ops quick, 1..60 thorough) over 1..5 sessions of a family of mutually confusable ids (prefixes, trailing/leading/double hyphens, empty, hex digests, production-style message ids) and 1..3 declared message types; fan cases: a table of 1..9 subscriptions / cancellations (several subscribers per pair, channels holding several subscriptions), then 1..3 inbound streams of 1..6 messages each (different and equal sessions / types / payloads) handed to ProcessMessagesFromStream back to back, one per Read or in random chunks, with unbuffered / capacity-1 / large subscriber channels read late (nobody reads before everything was decoded), interleaved or promptly in a random order, a third of them under GOMAXPROCS(1); distinct = distinct input JSON; non-trivial = every built-id Unwrap, malformed ids with at least two separators, operation lists with at least two subscriptions and one cancellation or delivery, fan cases with a subscription and at least two messages",
 	})
 }
